@@ -86,7 +86,10 @@ impl<'a> PrettyPrinter<'a> {
             } else {
                 FoldStyle::Fit
             };
-        let import_items_doc = self.convert_import_items(ctx, import_items_nodes, fold_style);
+        // A comment anywhere in the import may refer to an item, so the items keep their order.
+        let can_reorder = !has_comment_descendant(import.to_untyped());
+        let import_items_doc =
+            self.convert_import_items(ctx, import_items_nodes, fold_style, can_reorder);
         if ends_with_line_comment {
             prefix_doc + import_items_doc
         } else {
@@ -99,10 +102,12 @@ impl<'a> PrettyPrinter<'a> {
         ctx: Context,
         mut import_items_nodes: Vec<&'a SyntaxNode>,
         fold_style: FoldStyle,
+        can_reorder: bool,
     ) -> ArenaDoc<'a> {
         // Sort import items if the configuration allows it.
         // The sorting is only applied if all nodes are not comments and if there are no duplicate names.
         if self.config.reorder_import_items
+            && can_reorder
             && import_items_nodes.iter().all(|node| !is_comment_node(node))
             && check_import_name_duplication(&import_items_nodes)
         {
@@ -164,6 +169,11 @@ impl<'a> PrettyPrinter<'a> {
             }
         })
     }
+}
+
+/// Whether the node or any of its descendants is a comment.
+fn has_comment_descendant(node: &SyntaxNode) -> bool {
+    is_comment_node(node) || node.children().any(has_comment_descendant)
 }
 
 /// Check for duplicate import names in the given import items nodes.
